@@ -365,4 +365,19 @@ def check_C06(ctx):
                             "neighbours; non-trivial = decided (no clause after an else)" % n, assumptions=TRUSTED)
 
 
-CHECKS = {"C11": check_C11, "C09": check_C09, "C16": check_C16, "C17": check_C17, "C15": check_C15, "C10": check_C10, "C12": check_C12, "C08": check_C08, "C13": check_C13, "C20": check_C20, "C05": check_C05, "C19": check_C19, "C06": check_C06}
+# --------------------------------------------------------------------------- C07
+
+def check_C07(ctx):
+    d = 2 if ctx.quick else 3
+    cases, _ = ctx.tlc_mc("MC_C07", mc_cfg({"D": d, "WrapPolicy": '"keepinner"'}, ["ErrLocated", "NoOutputAfterError", "EmitCase"]),
+                          timeout=3000, heap="16g")
+    validate_by_module(ctx, ctx.run_cases(cases))
+    return finish(ctx, rule="MC_C07: 13 kinds of failing construct x every sequence of <= %d wrappers (if, for, case, capture, "
+                            "unless) x newlines before/inside (0-2, 0-1) x with/without path x starting line 0/1/5; for "
+                            "render-time kinds the render machine reports the static line in its error state; each case is "
+                            "parsed with ParseTemplateLocation and rendered, and TraceC07 checks SourceError, LineNumber, Path, "
+                            "Cause presence, message mentions the filter/tag, no output with the error" % d,
+                  assumptions=TRUSTED)
+
+
+CHECKS = {"C11": check_C11, "C09": check_C09, "C16": check_C16, "C17": check_C17, "C15": check_C15, "C10": check_C10, "C12": check_C12, "C08": check_C08, "C13": check_C13, "C20": check_C20, "C05": check_C05, "C19": check_C19, "C06": check_C06, "C07": check_C07}
